@@ -23,13 +23,14 @@ The strongest statement is `rest_roundtrip_full`: the parser returns **exactly**
 
 ## The domain, and which restrictions are essential
 
-`InDomain ir` (`inDomainB`): header empty or {no blank at either end, no `:`}; names pairwise distinct, each
-{no `:`/line break, ≠ `return_type`, no leading `*`, not ending in `kwargs`}; every entry (parameters and return) has a
-description {non-empty, one line, no `:`, no blank at either end, no `Defaults`/`defaults`, none of the 8 announce phrases
-(case-insensitively), no `(`, the emitted ` Defaults to ` is the first `defaults to ` of the completed line, not starting
-with `Optional`}, a type that is absent or {non-empty, one line, no `:`, no backtick, not ending in `, optional`}, a
-default that is absent or {an integer or a boolean, and the declared type — if any — is not one of
-`int float complex str bool` other than the default's own}.
+`InDomain ir` (`inDomainB`): header (any number of lines) empty or {no blank at either end, no ReST field token
+`:param :cvar :ivar :var :type :raises :return :rtype` inside}; names pairwise distinct, each {no `:`/line break,
+≠ `return_type`, no leading `*`, not ending in `kwargs`}; every entry (parameters and return) has a description
+{non-empty, one line, no ReST field token inside, no blank at either end, no `Defaults`/`defaults`, none of the 8 announce
+phrases (case-insensitively), no `(`, the emitted ` Defaults to ` is the first `defaults to ` of the completed line, not
+starting with `Optional`}, a type that is absent or {non-empty, one line, no `:`, no backtick, not ending in
+`, optional`}, a default that is absent or {an integer or a boolean, and the declared type — if any — is not one of
+`int float complex str bool` other than the default's own}.  Colons as such are allowed in descriptions and headers.
 
 **Essential** (each with a counterexample on the model below, `…_needed`; those marked † were also replayed on the real
 `cdd.docstring.emit.docstring` / `cdd.docstring.parse.docstring` and fail there in the same way):
@@ -45,10 +46,9 @@ no announce phrase in a description † (`announce_needed`: a default appears fr
 whole docstring); one-line descriptions (`two_line_doc_needed`); no ReST token inside a description or header †
 (`token_in_doc_needed`); every parameter has a description when types are not emitted (`docless_needed`: no trace is left).
 
-**Proof convenience only** (the round trip also holds outside, see the replayed cases in the report): *no colon at all*
-in descriptions, header, types (what matters is that no line contains `:param`, `:type`, `:return`, `:rtype`, `:raises`,
-`:cvar`, `:ivar`, `:var` after its first character — `"note: important"` round-trips); *no `(`* in descriptions (inherited
-from `C01.GoodBase`; what matters is `(<announce phrase>`); *no backtick* in types (a single backtick is harmless);
+**Proof convenience only** (the round trip also holds outside, see the replayed cases in the report): *no `(`* in
+descriptions (inherited from `C01.GoodBase`; what matters is `(<announce phrase>`); *no colon* and *no backtick* in types
+(what matters is no field token and no run of three backticks; a single backtick is harmless);
 entries *must* have a description (a type-only entry round-trips when types are emitted); defaults restricted to
 integers and booleans (strings and decimals have value-level theorems in Properties/C01.lean that are not yet lifted to
 whole docstrings).
@@ -217,11 +217,11 @@ theorem rest_roundtrip_exact (ir : IR) (ww edd : Bool) (h : InDomain ir) (s : St
 
 /-- header, four parameters (typed without default; typed `int` with default 10; untyped with default `True` and a
     description ending in a comma; typed `Optional[int]` with default −3 and a description ending in a full stop),
-    and a typed return entry -/
+    a colon inside a description, and a typed return entry -/
 def exIR : IR :=
   { doc := cs!"Train it.",
     params := [
-      (cs!"lr", { typ := some cs!"float", doc := some cs!"learning rate" }),
+      (cs!"lr", { typ := some cs!"float", doc := some cs!"learning rate: step size" }),
       (cs!"epochs", { typ := some cs!"int", doc := some cs!"how long", default := some (.int 10) }),
       (cs!"verbose", { doc := some cs!"print progress,", default := some (.bool true) }),
       (cs!"offset", { typ := some cs!"Optional[int]", doc := some cs!"shift by this.", default := some (.int (-3)) })],
@@ -232,7 +232,7 @@ example : InDomain exIR := by decide +kernel
 
 set_option maxRecDepth 100000 in
 /-- `emit` answers on it (all types and defaults emitted, word wrap on) -/
-example : emit exIR .rest true true true = .ok cs!"Train it.\n\n:param lr: learning rate\n:type lr: ```float```\n\n:param epochs: how long. Defaults to 10\n:type epochs: ```int```\n\n:param verbose: print progress, Defaults to True\n\n:param offset: shift by this. Defaults to -3\n:type offset: ```Optional[int]```\n\n:return: the result\n:rtype: ```str```\n" := by
+example : emit exIR .rest true true true = .ok cs!"Train it.\n\n:param lr: learning rate: step size\n:type lr: ```float```\n\n:param epochs: how long. Defaults to 10\n:type epochs: ```int```\n\n:param verbose: print progress, Defaults to True\n\n:param offset: shift by this. Defaults to -3\n:type offset: ```Optional[int]```\n\n:return: the result\n:rtype: ```str```\n" := by
   decide +kernel
 
 /-- hence (instance of `rest_roundtrip_full`, not an evaluation): the parse result is `expIR exIR true true` -/
